@@ -1,10 +1,839 @@
-// Package c16: harness for property C16 (stub until built).
+// Package c16: the governance tally installed by app/gov (custom
+// CalculateVoteResultsAndVotingPowerFn) driven on real staking state of the running application.
+//
+// The staking graph is built with the real message servers: staking MsgDelegate /
+// MsgUndelegate / MsgCreateValidator, x/shareclass MsgNonVotingDelegate, and the staking
+// keeper's Slash / Jail (what x/slashing calls) to get exchange rates != 1 and validators
+// outside the bonded set. Every case writes a set of weighted votes into the gov keeper's
+// Votes collection (in a cache context), dumps what the function reads (bonded validators,
+// delegations of the share-class account and of each voter, bonded totals) and calls the very
+// function app.go installs.
 package c16
 
-import "fmt"
+import (
+	"fmt"
+	"math/big"
+	"sort"
+	"strings"
+	"time"
 
-// Run generates n cases from seed, runs them on the real application and writes
-// cases_*.v and stats.json into outDir.
+	"cosmossdk.io/collections"
+	sdkmath "cosmossdk.io/math"
+	govkeeper "cosmossdk.io/x/gov/keeper"
+	v1 "cosmossdk.io/x/gov/types/v1"
+	stakingkeeper "cosmossdk.io/x/staking/keeper"
+	stakingtypes "cosmossdk.io/x/staking/types"
+	"github.com/cosmos/cosmos-sdk/crypto/keys/ed25519"
+	sdk "github.com/cosmos/cosmos-sdk/types"
+
+	appgov "github.com/sunriselayer/sunrise/app/gov"
+	sckeeper "github.com/sunriselayer/sunrise/x/shareclass/keeper"
+	sctypes "github.com/sunriselayer/sunrise/x/shareclass/types"
+
+	"verifharness/apph"
+	"verifharness/emit"
+)
+
+const (
+	bond       = "uvrise"
+	fee        = "urise"
+	proposalID = uint64(77)
+)
+
+type world struct {
+	h      *apph.H
+	fn     govkeeper.CalculateVoteResultsAndVotingPowerFn
+	sc     sdk.AccAddress
+	ids    map[string]int64
+	nextID int64
+	stk    stakingtypes.MsgServer
+	scs    sctypes.MsgServer
+	nvals  int // validators ever created
+	st     *emit.Stats
+	log    []string // graph operations since the last case (replay info)
+}
+
+func newWorld(numVals, numAccts int, st *emit.Stats) *world {
+	h := apph.New(apph.Options{NumAccounts: numAccts, NumValidators: numVals})
+	w := &world{h: h, ids: map[string]int64{}, nextID: 1, st: st}
+	w.fn = appgov.ProvideCalculateVoteResultsAndVotingPowerFn(h.App.AuthKeeper, h.App.StakingKeeper)
+	w.sc = h.App.AuthKeeper.GetModuleAddress(sctypes.ModuleName)
+	w.stk = stakingkeeper.NewMsgServerImpl(h.App.StakingKeeper)
+	w.scs = sckeeper.NewMsgServerImpl(h.App.ShareclassKeeper)
+	w.nvals = numVals
+	return w
+}
+
+func (w *world) id(addr []byte) int64 {
+	k := string(addr)
+	if v, ok := w.ids[k]; ok {
+		return v
+	}
+	w.ids[k] = w.nextID
+	w.nextID++
+	return w.ids[k]
+}
+
+func (w *world) note(format string, a ...any) { w.log = append(w.log, fmt.Sprintf(format, a...)) }
+
+func (w *world) allVals() []stakingtypes.Validator {
+	vs, err := w.h.App.StakingKeeper.GetAllValidators(w.h.Ctx())
+	if err != nil {
+		panic(err)
+	}
+	sort.Slice(vs, func(i, j int) bool { return vs[i].OperatorAddress < vs[j].OperatorAddress })
+	return vs
+}
+
+func (w *world) valBytes(v stakingtypes.Validator) []byte {
+	bz, err := w.h.App.StakingKeeper.ValidatorAddressCodec().StringToBytes(v.OperatorAddress)
+	if err != nil {
+		panic(err)
+	}
+	return bz
+}
+
+// ---- graph operations (all through the real code, all-or-nothing like a transaction) ----
+
+func (w *world) delegate(from sdk.AccAddress, val string, amt sdkmath.Int) error {
+	err := apph.Tx(w.h.Ctx(), func(ctx sdk.Context) error {
+		_, e := w.stk.Delegate(ctx, &stakingtypes.MsgDelegate{DelegatorAddress: from.String(), ValidatorAddress: val, Amount: sdk.NewCoin(bond, amt)})
+		return e
+	})
+	w.note("delegate %s -> %s %s err=%v", from, val, amt, err)
+	return err
+}
+
+func (w *world) nonVoting(from sdk.AccAddress, val string, amt sdkmath.Int) error {
+	err := apph.Tx(w.h.Ctx(), func(ctx sdk.Context) error {
+		_, e := w.scs.NonVotingDelegate(ctx, &sctypes.MsgNonVotingDelegate{Sender: from.String(), ValidatorAddress: val, Amount: sdk.NewCoin(fee, amt)})
+		return e
+	})
+	w.note("nonvoting-delegate %s -> %s %s err=%v", from, val, amt, err)
+	return err
+}
+
+func (w *world) undelegate(from sdk.AccAddress, val string, amt sdkmath.Int) error {
+	err := apph.Tx(w.h.Ctx(), func(ctx sdk.Context) error {
+		_, e := w.stk.Undelegate(ctx, &stakingtypes.MsgUndelegate{DelegatorAddress: from.String(), ValidatorAddress: val, Amount: sdk.NewCoin(bond, amt)})
+		return e
+	})
+	w.note("undelegate %s -> %s %s err=%v", from, val, amt, err)
+	return err
+}
+
+func (w *world) slash(v stakingtypes.Validator, frac sdkmath.LegacyDec) error {
+	cons, err := v.GetConsAddr()
+	if err != nil {
+		return err
+	}
+	err = apph.Tx(w.h.Ctx(), func(ctx sdk.Context) error {
+		power := v.GetConsensusPower(w.h.App.StakingKeeper.PowerReduction(ctx))
+		_, e := w.h.App.StakingKeeper.Slash(ctx, cons, w.h.Height, power, frac)
+		return e
+	})
+	w.note("slash %s by %s err=%v", v.OperatorAddress, frac, err)
+	return err
+}
+
+func (w *world) jail(v stakingtypes.Validator, unjail bool) error {
+	cons, err := v.GetConsAddr()
+	if err != nil {
+		return err
+	}
+	err = apph.Tx(w.h.Ctx(), func(ctx sdk.Context) error {
+		if unjail {
+			return w.h.App.StakingKeeper.Unjail(ctx, cons)
+		}
+		return w.h.App.StakingKeeper.Jail(ctx, cons)
+	})
+	w.note("jail(unjail=%v) %s err=%v", unjail, v.OperatorAddress, err)
+	return err
+}
+
+func (w *world) createValidator(op sdk.AccAddress, amt sdkmath.Int) error {
+	pk := ed25519.GenPrivKeyFromSecret([]byte(fmt.Sprintf("verif-c16-newval-%d", w.nvals))).PubKey()
+	valStr, err := w.h.App.StakingKeeper.ValidatorAddressCodec().BytesToString(op)
+	if err != nil {
+		return err
+	}
+	msg, err := stakingtypes.NewMsgCreateValidator(valStr, pk, sdk.NewCoin(bond, amt),
+		stakingtypes.Description{Moniker: fmt.Sprintf("v%d", w.nvals)},
+		stakingtypes.NewCommissionRates(sdkmath.LegacyNewDecWithPrec(1, 1), sdkmath.LegacyNewDecWithPrec(2, 1), sdkmath.LegacyNewDecWithPrec(1, 2)),
+		sdkmath.OneInt())
+	if err != nil {
+		return err
+	}
+	err = apph.Tx(w.h.Ctx(), func(ctx sdk.Context) error {
+		_, e := w.stk.CreateValidator(ctx, msg)
+		return e
+	})
+	w.note("create-validator %s %s err=%v", valStr, amt, err)
+	if err == nil {
+		w.nvals++
+	}
+	return err
+}
+
+func (w *world) block(dt time.Duration) error {
+	_, err := w.h.NextBlock(dt)
+	w.note("block +%s err=%v", dt, err)
+	return err
+}
+
+// ---- one tally case ----
+
+type voteSpec struct {
+	voter sdk.AccAddress
+	opts  v1.WeightedVoteOptions
+}
+
+func raw(d sdkmath.LegacyDec) *big.Int { return d.BigInt() }
+
+func pair(a, b string) string { return "(" + a + ", " + b + ")" }
+
+type caseOut struct {
+	term string
+	info map[string]any
+	// classification for the stats
+	nonvotingOnVoting bool // non-voting stake > 0 on a validator that votes or whose delegators vote
+	delegatorVotes    int
+	validatorVotes    int
+	scVoted           bool
+	rateNotOne        bool
+	unbondedSC        bool
+	allNonVoting      bool
+	outcome           string
+	key               string
+}
+
+func (w *world) runCase(votes []voteSpec, tag string) caseOut {
+	return w.runCaseP(proposalID, votes, tag, nil)
+}
+
+// runCaseP: votes == nil means "use the votes already stored for proposal pid". finalize, when
+// given, runs after the observation (which happens in a discarded context) and returns the
+// counts the real EndBlocker stored in the proposal's FinalTallyResult; they replace the
+// Keeper.Tally counts of the case.
+func (w *world) runCaseP(pid uint64, votes []voteSpec, tag string, finalize func() ([]string, string, error)) caseOut {
+	proposalID := pid
+	h := w.h
+	ctx, _ := h.Ctx().CacheContext()
+	sk := h.App.StakingKeeper
+	gk := h.App.GovKeeper
+	out := caseOut{info: map[string]any{"tag": tag, "graph_ops": w.log}}
+	w.log = nil
+	for _, v := range votes {
+		if err := gk.Votes.Set(ctx, collections.Join(proposalID, v.voter), v1.NewVote(proposalID, v.voter.String(), v.opts, "")); err != nil {
+			panic(err)
+		}
+	}
+	// the map the gov keeper hands to the function (keeper/tally.go getCurrentValidators)
+	validators := map[string]v1.ValidatorGovInfo{}
+	var valTerms, valHuman []string
+	if err := sk.IterateBondedValidatorsByPower(ctx, func(_ int64, v sdk.ValidatorI) bool {
+		bz, err := sk.ValidatorAddressCodec().StringToBytes(v.GetOperator())
+		if err != nil {
+			panic(err)
+		}
+		validators[v.GetOperator()] = v1.NewValidatorGovInfo(bz, v.GetBondedTokens(), v.GetDelegatorShares(), sdkmath.LegacyZeroDec(), v1.WeightedVoteOptions{})
+		valTerms = append(valTerms, fmt.Sprintf("{| v_id := %d; v_tok := %s; v_sh := %s |}", w.id(bz), emit.Z(v.GetBondedTokens().BigInt()), emit.Z(raw(v.GetDelegatorShares()))))
+		valHuman = append(valHuman, fmt.Sprintf("%d:%s tokens=%s shares=%s", w.id(bz), v.GetOperator(), v.GetBondedTokens(), v.GetDelegatorShares()))
+		if !v.GetDelegatorShares().Equal(sdkmath.LegacyNewDecFromInt(v.GetBondedTokens())) {
+			out.rateNotOne = true
+		}
+		return false
+	}); err != nil {
+		panic(err)
+	}
+	dels := func(addr sdk.AccAddress) (terms, human []string, bonded []string) {
+		if err := sk.IterateDelegations(ctx, addr, func(_ int64, d sdk.DelegationI) bool {
+			bz, err := sk.ValidatorAddressCodec().StringToBytes(d.GetValidatorAddr())
+			if err != nil {
+				panic(err)
+			}
+			terms = append(terms, pair(emit.ZI(w.id(bz)), emit.Z(raw(d.GetShares()))))
+			human = append(human, fmt.Sprintf("%d:%s", w.id(bz), d.GetShares()))
+			if _, ok := validators[d.GetValidatorAddr()]; ok {
+				bonded = append(bonded, d.GetValidatorAddr())
+			}
+			return false
+		}); err != nil {
+			panic(err)
+		}
+		return
+	}
+	scTerms, scHuman, scBondedVals := dels(w.sc)
+	scOn := map[string]bool{}
+	for _, v := range scBondedVals {
+		scOn[v] = true
+	}
+	// share-class delegations with their validator's tokens/shares, for staking's GetDelegatorBonded
+	var scAll []string
+	if err := sk.IterateDelegations(ctx, w.sc, func(_ int64, d sdk.DelegationI) bool {
+		bz, _ := sk.ValidatorAddressCodec().StringToBytes(d.GetValidatorAddr())
+		v, err := sk.GetValidator(ctx, bz)
+		if err == nil {
+			scAll = append(scAll, fmt.Sprintf("(%s, %s, %s)", emit.Z(raw(d.GetShares())), emit.Z(v.Tokens.BigInt()), emit.Z(raw(v.DelegatorShares))))
+			if !v.IsBonded() {
+				out.unbondedSC = true
+			}
+		}
+		return false
+	}); err != nil {
+		panic(err)
+	}
+	// votes in store order, each with the voter's delegations
+	var ballots, ballotHuman []string
+	touched := map[string]bool{} // validators that vote or have voting delegators
+	rng := collections.NewPrefixedPairRange[uint64, sdk.AccAddress](proposalID)
+	if err := gk.Votes.Walk(ctx, rng, func(key collections.Pair[uint64, sdk.AccAddress], vote v1.Vote) (bool, error) {
+		voter := key.K2()
+		var ws, wh []string
+		for _, o := range vote.Options {
+			wd, err := sdkmath.LegacyNewDecFromStr(o.Weight)
+			if err != nil {
+				panic(err)
+			}
+			ws = append(ws, pair(emit.ZI(int64(o.Option)), emit.Z(raw(wd))))
+			wh = append(wh, fmt.Sprintf("%d:%s", o.Option, o.Weight))
+		}
+		dt, dh, db := dels(voter)
+		ballots = append(ballots, fmt.Sprintf("{| b_voter := %d; b_w := %s; b_dels := %s |}", w.id(voter), emit.List(ws), emit.List(dt)))
+		ballotHuman = append(ballotHuman, fmt.Sprintf("voter %d:%s opts=[%s] dels=[%s]", w.id(voter), voter, strings.Join(wh, " "), strings.Join(dh, " ")))
+		if voter.Equals(w.sc) {
+			out.scVoted = true
+			return false, nil
+		}
+		valStr, _ := sk.ValidatorAddressCodec().BytesToString(voter)
+		if _, ok := validators[valStr]; ok {
+			out.validatorVotes++
+			touched[valStr] = true
+		}
+		if len(db) > 0 {
+			out.delegatorVotes++
+			for _, v := range db {
+				touched[v] = true
+			}
+		}
+		return false, nil
+	}); err != nil {
+		panic(err)
+	}
+	for v := range touched {
+		if scOn[v] {
+			out.nonvotingOnVoting = true
+		}
+	}
+	totalBonded, err := sk.TotalBondedTokens(ctx)
+	if err != nil {
+		panic(err)
+	}
+	scBonded, err := sk.GetDelegatorBonded(ctx, w.sc)
+	if err != nil {
+		panic(err)
+	}
+	out.allNonVoting = totalBonded.IsPositive() && scBonded.GTE(totalBonded)
+	sumTok := sdkmath.ZeroInt()
+	for _, v := range validators {
+		sumTok = sumTok.Add(v.BondedTokens)
+	}
+	if !sumTok.Equal(totalBonded) {
+		// a validator jailed earlier in the same block is out of the power index but its tokens
+		// are still in the bonded pool until staking's EndBlocker
+		out.info["bonded_pool_minus_sum_of_listed_validators"] = totalBonded.Sub(sumTok).String()
+		w.st.Count("case:bonded-pool!=sum-of-listed-validators")
+	}
+
+	// the keeper path (Keeper.Tally uses the function installed by app.go), on its own copy
+	kctx, _ := ctx.CacheContext()
+	keeperCounts := "None"
+	func() {
+		defer func() {
+			if r := recover(); r != nil {
+				out.info["keeper_tally_panic"] = fmt.Sprint(r)
+			}
+		}()
+		passes, burn, tr, err := gk.Tally(kctx, v1.Proposal{Id: proposalID, ProposalType: v1.ProposalType_PROPOSAL_TYPE_STANDARD})
+		out.info["keeper_passes"], out.info["keeper_burns_deposit"] = passes, burn
+		if err != nil {
+			out.info["keeper_tally_err"] = err.Error()
+			return
+		}
+		cs := []string{}
+		for _, s := range []string{tr.YesCount, tr.AbstainCount, tr.NoCount, tr.NoWithVetoCount, tr.SpamCount} {
+			x, ok := new(big.Int).SetString(s, 10)
+			if !ok {
+				panic("bad tally count " + s)
+			}
+			cs = append(cs, emit.Z(x))
+		}
+		keeperCounts = emit.Some(emit.List(cs))
+		out.info["keeper_tally"] = tr.String()
+	}()
+
+	// the function itself
+	obs := ""
+	func() {
+		defer func() {
+			if r := recover(); r != nil {
+				obs = "Panic"
+				out.outcome = "panic"
+				out.info["panic"] = fmt.Sprint(r)
+			}
+		}()
+		tot, res, err := w.fn(ctx, *gk, proposalID, validators)
+		if err != nil {
+			obs = "(Err 1)"
+			out.outcome = "err"
+			out.info["err"] = err.Error()
+			return
+		}
+		rs := []string{}
+		rh := []string{}
+		for _, o := range []v1.VoteOption{v1.OptionYes, v1.OptionAbstain, v1.OptionNo, v1.OptionNoWithVeto, v1.OptionSpam} {
+			rs = append(rs, emit.Z(raw(res[o])))
+			rh = append(rh, res[o].String())
+		}
+		obs = fmt.Sprintf("(Ok (%s, %s))", emit.Z(raw(tot)), emit.List(rs))
+		out.outcome = "ok"
+		out.info["total_voting_power"] = tot.String()
+		out.info["results"] = rh
+	}()
+	left := 0
+	if err := gk.Votes.Walk(ctx, rng, func(collections.Pair[uint64, sdk.AccAddress], v1.Vote) (bool, error) { left++; return false, nil }); err != nil {
+		panic(err)
+	}
+	if finalize != nil {
+		cs, status, err := finalize()
+		if err != nil {
+			out.info["end_to_end_error"] = err.Error()
+			keeperCounts = "None"
+		} else {
+			keeperCounts = emit.Some(emit.List(cs))
+			out.info["end_blocker_final_tally"] = cs
+			out.info["proposal_status"] = status
+		}
+		// votes must be gone from the real store as well
+		rctx := h.Ctx()
+		left = 0
+		if err := gk.Votes.Walk(rctx, rng, func(collections.Pair[uint64, sdk.AccAddress], v1.Vote) (bool, error) { left++; return false, nil }); err != nil {
+			panic(err)
+		}
+	}
+	out.info["validators"] = valHuman
+	out.info["shareclass"] = fmt.Sprintf("%d:%s", w.id(w.sc), w.sc)
+	out.info["shareclass_delegations"] = scHuman
+	out.info["votes"] = ballotHuman
+	out.info["total_bonded"] = totalBonded.String()
+	out.info["shareclass_bonded(GetDelegatorBonded)"] = scBonded.String()
+	out.term = fmt.Sprintf("{| gc_sc := %d; gc_vals := %s; gc_scdels := %s; gc_scall := %s; gc_ballots := %s; gc_bonded := %s; gc_scbonded := %s; gc_obs := %s; gc_left := %d; gc_keeper := %s |}",
+		w.id(w.sc), emit.List(valTerms), emit.List(scTerms), emit.List(scAll), emit.List(ballots),
+		emit.Z(totalBonded.BigInt()), emit.Z(scBonded.BigInt()), obs, left, keeperCounts)
+	out.key = fmt.Sprintf("v%d/d%d/sc%v/r%v/n%d/%s", out.validatorVotes, out.delegatorVotes, out.scVoted, out.rateNotOne, len(scTerms), totalBonded.String()+"-"+scBonded.String())
+	return out
+}
+
+// ---- generators ----
+
+var one18 = new(big.Int).Exp(big.NewInt(10), big.NewInt(18), nil)
+
+func decStr(rawv *big.Int) string {
+	s := rawv.String()
+	for len(s) < 19 {
+		s = "0" + s
+	}
+	return s[:len(s)-18] + "." + s[len(s)-18:]
+}
+
+func genOptions(r *emit.Rand) v1.WeightedVoteOptions {
+	all := []v1.VoteOption{v1.OptionYes, v1.OptionAbstain, v1.OptionNo, v1.OptionNoWithVeto, v1.OptionSpam}
+	k := emit.Pick(r, 1, 1, 1, 2, 2, 3, 4, 5)
+	// random distinct options
+	perm := []int{0, 1, 2, 3, 4}
+	for i := 4; i > 0; i-- {
+		j := r.Intn(i + 1)
+		perm[i], perm[j] = perm[j], perm[i]
+	}
+	// weights summing to exactly one
+	cuts := []*big.Int{big.NewInt(0)}
+	for i := 0; i < k-1; i++ {
+		var c *big.Int
+		switch r.Intn(3) {
+		case 0:
+			c = new(big.Int).Mul(big.NewInt(int64(1+r.Intn(9))), new(big.Int).Exp(big.NewInt(10), big.NewInt(17), nil))
+		case 1:
+			c = new(big.Int).Div(one18, big.NewInt(3))
+		default:
+			c = r.Big(one18)
+		}
+		cuts = append(cuts, c)
+	}
+	cuts = append(cuts, new(big.Int).Set(one18))
+	sort.Slice(cuts, func(i, j int) bool { return cuts[i].Cmp(cuts[j]) < 0 })
+	var out v1.WeightedVoteOptions
+	for i := 0; i < k; i++ {
+		wgt := new(big.Int).Sub(cuts[i+1], cuts[i])
+		if wgt.Sign() == 0 {
+			continue
+		}
+		out = append(out, &v1.WeightedVoteOption{Option: all[perm[i]], Weight: decStr(wgt)})
+	}
+	return out
+}
+
+func (w *world) voterPool() []sdk.AccAddress {
+	var p []sdk.AccAddress
+	for _, a := range w.h.Accts {
+		p = append(p, a.Addr)
+	}
+	for _, v := range w.allVals() {
+		p = append(p, sdk.AccAddress(w.valBytes(v)))
+	}
+	return p
+}
+
+func (w *world) genVotes(r *emit.Rand) []voteSpec {
+	pool := w.voterPool()
+	var vs []voteSpec
+	seen := map[string]bool{}
+	mode := r.Intn(6)
+	for _, a := range pool {
+		p := 2 // out of 4
+		switch mode {
+		case 0:
+			p = 1
+		case 1:
+			p = 4
+		case 2:
+			p = 0
+		}
+		if r.Chance(p, 4) && !seen[string(a)] {
+			seen[string(a)] = true
+			vs = append(vs, voteSpec{a, genOptions(r)})
+		}
+	}
+	if r.Chance(1, 3) {
+		vs = append(vs, voteSpec{w.sc, genOptions(r)})
+	}
+	return vs
+}
+
+func (w *world) amount(r *emit.Rand) sdkmath.Int {
+	switch r.Intn(6) {
+	case 0:
+		return sdkmath.NewInt(int64(1 + r.Intn(9)))
+	case 1:
+		return sdkmath.NewInt(1_000_000 * int64(1+r.Intn(50)))
+	default:
+		return sdkmath.NewIntFromBigInt(r.LogUniform(14))
+	}
+}
+
+// one random graph operation
+func (w *world) mutate(r *emit.Rand) {
+	vals := w.allVals()
+	v := vals[r.Intn(len(vals))]
+	a := w.h.Accts[r.Intn(len(w.h.Accts))].Addr
+	kind := r.Intn(20)
+	var err error
+	var name string
+	switch {
+	case kind < 6:
+		name = "delegate"
+		err = w.delegate(a, v.OperatorAddress, w.amount(r))
+	case kind < 11:
+		name = "nonvoting-delegate"
+		err = w.nonVoting(a, v.OperatorAddress, w.amount(r))
+	case kind < 13:
+		name = "undelegate"
+		// undelegate part (or all) of an existing delegation
+		ds, _ := w.h.App.StakingKeeper.GetDelegatorDelegations(w.h.Ctx(), a, 50)
+		if len(ds) == 0 {
+			return
+		}
+		d := ds[r.Intn(len(ds))]
+		vb, _ := w.h.App.StakingKeeper.ValidatorAddressCodec().StringToBytes(d.ValidatorAddress)
+		vv, e := w.h.App.StakingKeeper.GetValidator(w.h.Ctx(), vb)
+		if e != nil {
+			return
+		}
+		tok := vv.TokensFromShares(d.Shares).TruncateInt()
+		if !tok.IsPositive() {
+			return
+		}
+		amt := tok
+		if r.Chance(2, 3) {
+			amt = sdkmath.NewIntFromBigInt(r.Big(tok.BigInt())).AddRaw(1)
+			if amt.GT(tok) {
+				amt = tok
+			}
+		}
+		err = w.undelegate(a, d.ValidatorAddress, amt)
+	case kind < 15:
+		name = "slash"
+		fr := emit.Pick(r, "0.01", "0.05", "0.333333333333333333", "0.000001", "0.5", "0.123456789012345678")
+		if !v.IsBonded() {
+			return
+		}
+		err = w.slash(v, sdkmath.LegacyMustNewDecFromStr(fr))
+	case kind < 16:
+		name = "jail"
+		// keep at least two bonded validators
+		nb := 0
+		for _, x := range vals {
+			if x.IsBonded() && !x.Jailed {
+				nb++
+			}
+		}
+		if v.Jailed {
+			err = w.jail(v, true)
+		} else if nb > 2 {
+			err = w.jail(v, false)
+		} else {
+			return
+		}
+	case kind < 17:
+		name = "create-validator"
+		// an account that is not yet an operator
+		for _, acc := range w.h.Accts {
+			bz := []byte(acc.Addr)
+			if _, e := w.h.App.StakingKeeper.GetValidator(w.h.Ctx(), bz); e != nil {
+				err = w.createValidator(acc.Addr, w.amount(r).AddRaw(1_000_000))
+				break
+			}
+		}
+	default:
+		name = "block"
+		err = w.block(time.Duration(1+r.Intn(30)) * time.Second)
+	}
+	if err != nil {
+		w.st.Count("graph:" + name + ":err")
+	} else {
+		w.st.Count("graph:" + name + ":ok")
+	}
+}
+
+func (w *world) record(cf *emit.CasesFile, c caseOut) {
+	cf.Add(c.term)
+	w.st.Info(c.info)
+	w.st.Evaluations++
+	w.st.Count("tally:" + c.outcome)
+	if c.scVoted {
+		w.st.Count("case:shareclass-account-voted")
+	}
+	if c.rateNotOne {
+		w.st.Count("case:some-validator-tokens!=shares")
+	}
+	if c.unbondedSC {
+		w.st.Count("case:nonvoting-stake-on-unbonded-validator")
+	}
+	if c.allNonVoting {
+		w.st.Count("case:all-bonded-stake-nonvoting")
+	}
+	if c.validatorVotes > 0 {
+		w.st.Count("case:validator-voted")
+	}
+	if c.delegatorVotes > 0 {
+		w.st.Count("case:delegator-voted")
+	}
+	if c.nonvotingOnVoting && c.delegatorVotes > 0 {
+		w.st.Nontriv(c.key)
+		w.st.Count("case:nontrivial")
+		w.st.Sample(c.info)
+	}
+}
+
+// corpus: the witnesses of the three turnout defects of the pinned commit, built on real state.
+func corpus(cf *emit.CasesFile, st *emit.Stats) error {
+	yes := v1.WeightedVoteOptions{&v1.WeightedVoteOption{Option: v1.OptionYes, Weight: "1.000000000000000000"}}
+	// (a) shares subtracted again: one validator at rate 1 (created by an account), 60 voting, 40 non-voting
+	{
+		w := newWorld(1, 4, st)
+		defer w.h.Close()
+		op := w.h.Accts[1].Addr
+		if err := w.createValidator(op, sdkmath.NewInt(60_000_000)); err != nil {
+			return fmt.Errorf("corpus a: %w", err)
+		}
+		if err := w.block(time.Second); err != nil {
+			return err
+		}
+		valStr, _ := w.h.App.StakingKeeper.ValidatorAddressCodec().BytesToString(op)
+		if err := w.nonVoting(w.h.Accts[2].Addr, valStr, sdkmath.NewInt(40_000_000)); err != nil {
+			return fmt.Errorf("corpus a: %w", err)
+		}
+		if err := w.block(time.Second); err != nil {
+			return err
+		}
+		w.record(cf, w.runCase([]voteSpec{{op, yes}}, "corpus:turnout-subtracts-shares-again"))
+		w.record(cf, w.runCase([]voteSpec{{op, yes}, {w.sc, yes}}, "corpus:shareclass-vote-discarded"))
+		// more than half of the bonded stake non-voting and every voter says yes: see keeper_passes
+		if err := w.nonVoting(w.h.Accts[2].Addr, valStr, sdkmath.NewInt(30_000_000)); err != nil {
+			return fmt.Errorf("corpus a: %w", err)
+		}
+		w.record(cf, w.runCase([]voteSpec{{op, yes}, {w.h.Accts[0].Addr, yes}}, "corpus:unanimous-yes-with-majority-nonvoting"))
+	}
+	// (b) all bonded stake non-voting: the only voting delegation leaves
+	{
+		w := newWorld(1, 3, st)
+		defer w.h.Close()
+		v := w.allVals()[0]
+		if err := w.nonVoting(w.h.Accts[1].Addr, v.OperatorAddress, sdkmath.NewInt(5_000_000)); err != nil {
+			return fmt.Errorf("corpus b: %w", err)
+		}
+		if err := w.undelegate(w.h.Accts[0].Addr, v.OperatorAddress, sdkmath.NewInt(1_000_000)); err != nil {
+			return fmt.Errorf("corpus b: %w", err)
+		}
+		if err := w.block(time.Second); err != nil {
+			return err
+		}
+		w.record(cf, w.runCase([]voteSpec{{w.h.Accts[2].Addr, yes}}, "corpus:all-bonded-stake-nonvoting"))
+	}
+	// (c) non-voting stake on a jailed validator is subtracted from the bonded total
+	{
+		w := newWorld(2, 4, st)
+		defer w.h.Close()
+		vs := w.allVals()
+		for _, v := range vs {
+			if err := w.nonVoting(w.h.Accts[1].Addr, v.OperatorAddress, sdkmath.NewInt(3_000_000)); err != nil {
+				return fmt.Errorf("corpus c: %w", err)
+			}
+		}
+		if err := w.delegate(w.h.Accts[2].Addr, vs[0].OperatorAddress, sdkmath.NewInt(2_000_000)); err != nil {
+			return fmt.Errorf("corpus c: %w", err)
+		}
+		if err := w.jail(vs[1], false); err != nil {
+			return fmt.Errorf("corpus c: %w", err)
+		}
+		if err := w.block(time.Second); err != nil {
+			return err
+		}
+		w.record(cf, w.runCase([]voteSpec{{w.h.Accts[2].Addr, yes}, {w.h.Accts[0].Addr, yes}}, "corpus:nonvoting-stake-on-jailed-validator"))
+	}
+	return nil
+}
+
+// endToEnd: a real proposal (MsgSubmitProposal with the minimum deposit), real MsgVote /
+// MsgVoteWeighted, then a real block that ends the voting period: gov's EndBlocker tallies with
+// whatever function the keeper holds and stores FinalTallyResult.
+func endToEnd(cf *emit.CasesFile, st *emit.Stats) error {
+	w := newWorld(1, 5, st)
+	defer w.h.Close()
+	h := w.h
+	gk := h.App.GovKeeper
+	gsrv := govkeeper.NewMsgServerImpl(gk)
+	op := h.Accts[1].Addr
+	if err := w.createValidator(op, sdkmath.NewInt(60_000_000)); err != nil {
+		return err
+	}
+	if err := w.block(time.Second); err != nil {
+		return err
+	}
+	valStr, _ := h.App.StakingKeeper.ValidatorAddressCodec().BytesToString(op)
+	if err := w.nonVoting(h.Accts[2].Addr, valStr, sdkmath.NewInt(25_000_000)); err != nil {
+		return err
+	}
+	if err := w.delegate(h.Accts[3].Addr, valStr, sdkmath.NewInt(7_000_000)); err != nil {
+		return err
+	}
+	params, err := gk.Params.Get(h.Ctx())
+	if err != nil {
+		return err
+	}
+	msg, err := v1.NewMsgSubmitProposal(nil, sdk.NewCoins(params.MinDeposit...), h.Accts[0].Addr.String(), "ipfs://verif", "verif", "end to end tally", v1.ProposalType_PROPOSAL_TYPE_STANDARD)
+	if err != nil {
+		return err
+	}
+	var pid uint64
+	if err := apph.Tx(h.Ctx(), func(ctx sdk.Context) error {
+		r, e := gsrv.SubmitProposal(ctx, msg)
+		if e == nil {
+			pid = r.ProposalId
+		}
+		return e
+	}); err != nil {
+		return fmt.Errorf("submit proposal: %w", err)
+	}
+	w.note("submit-proposal id=%d deposit=%s", pid, sdk.NewCoins(params.MinDeposit...))
+	vote := func(a sdk.AccAddress, opts v1.WeightedVoteOptions) error {
+		err := apph.Tx(h.Ctx(), func(ctx sdk.Context) error {
+			_, e := gsrv.VoteWeighted(ctx, v1.NewMsgVoteWeighted(a.String(), pid, opts, ""))
+			return e
+		})
+		w.note("vote %s err=%v", a, err)
+		return err
+	}
+	if err := vote(op, v1.WeightedVoteOptions{{Option: v1.OptionYes, Weight: "1.000000000000000000"}}); err != nil {
+		return fmt.Errorf("vote: %w", err)
+	}
+	if err := vote(h.Accts[3].Addr, v1.WeightedVoteOptions{{Option: v1.OptionNo, Weight: "0.250000000000000000"}, {Option: v1.OptionYes, Weight: "0.750000000000000000"}}); err != nil {
+		return fmt.Errorf("vote: %w", err)
+	}
+	if err := w.block(time.Second); err != nil {
+		return err
+	}
+	finalize := func() ([]string, string, error) {
+		if _, err := h.NextBlock(*params.VotingPeriod + time.Hour); err != nil {
+			return nil, "", fmt.Errorf("block ending the voting period: %w", err)
+		}
+		p, err := gk.Proposals.Get(h.Ctx(), pid)
+		if err != nil {
+			return nil, "", err
+		}
+		tr := p.FinalTallyResult
+		if tr == nil {
+			return nil, p.Status.String(), fmt.Errorf("no final tally result, status %s", p.Status)
+		}
+		cs := []string{}
+		for _, s := range []string{tr.YesCount, tr.AbstainCount, tr.NoCount, tr.NoWithVetoCount, tr.SpamCount} {
+			x, ok := new(big.Int).SetString(s, 10)
+			if !ok {
+				return nil, "", fmt.Errorf("bad count %q", s)
+			}
+			cs = append(cs, emit.Z(x))
+		}
+		return cs, p.Status.String(), nil
+	}
+	c := w.runCaseP(pid, nil, "corpus:end-to-end-proposal", finalize)
+	w.record(cf, c)
+	st.Count("case:end-to-end-proposal")
+	return nil
+}
+
+// Run generates n cases (plus the fixed corpus) and writes cases + stats into outDir.
 func Run(seed int64, n int, outDir string) error {
-	return fmt.Errorf("c16: harness not built yet")
+	r := emit.NewRand(seed)
+	st := emit.NewStats("C16", seed, "one call of the tally function app.go installs in the gov keeper, on real staking state; non-trivial when non-voting stake > 0 sits on a validator that votes or has a voting delegator and >= 1 delegator (an address with delegations to bonded validators) voted; distinct by (validator votes, delegator votes, share-class vote, rate != 1, non-voting delegations, bonded totals)")
+	cf := &emit.CasesFile{Import: "Stake.C16Check", Runner: "run", Type: "gov_case"}
+	if err := corpus(cf, st); err != nil {
+		return err
+	}
+	if err := endToEnd(cf, st); err != nil {
+		return fmt.Errorf("end-to-end proposal: %w", err)
+	}
+	w := newWorld(3, 7, st)
+	defer w.h.Close()
+	// initial structure: some voting and non-voting stake everywhere
+	for i := 0; i < 12; i++ {
+		w.mutate(r)
+	}
+	if err := w.block(time.Second); err != nil {
+		return err
+	}
+	for i := 0; i < n; i++ {
+		k := emit.Pick(r, 0, 0, 1, 1, 2, 4)
+		for j := 0; j < k; j++ {
+			w.mutate(r)
+		}
+		if k > 0 && r.Chance(1, 2) {
+			if err := w.block(time.Duration(1+r.Intn(10)) * time.Second); err != nil {
+				return fmt.Errorf("block failed: %w", err)
+			}
+		}
+		w.record(cf, w.runCase(w.genVotes(r), "gen"))
+	}
+	if _, err := cf.Write(outDir, "cases", 100); err != nil {
+		return err
+	}
+	return st.Write(outDir)
 }
